@@ -73,6 +73,9 @@ def extract_general_json(data: GeneralJSONSerialization) -> GeneralJSONEncryptio
         recipient: Recipient[Key] = Recipient(obj, item.get("header"))
         if "encrypted_key" in item:
             recipient.encrypted_key = urlsafe_b64decode(to_bytes(item["encrypted_key"]))
+        else:
+            # the member is absent when the JWE Encrypted Key is the empty octet sequence
+            recipient.encrypted_key = b""
         obj.recipients.append(recipient)
     return obj
 
@@ -88,6 +91,9 @@ def extract_flattened_json(data: FlattenedJSONSerialization) -> FlattenedJSONEnc
     recipient: Recipient[Key] = Recipient(obj, data.get("header"))
     if "encrypted_key" in data:
         recipient.encrypted_key = urlsafe_b64decode(to_bytes(data["encrypted_key"]))
+    else:
+        # the member is absent when the JWE Encrypted Key is the empty octet sequence
+        recipient.encrypted_key = b""
     obj.recipients.append(recipient)
     return obj
 
